@@ -1,10 +1,10 @@
 (* C18/Props.v -- the property theorems, and nothing else.  Each is closed by [exact] of a lemma of
    Proofs*.v and followed by Print Assumptions.  The oracles (JSON text layer, base64 / buffers, csv
-   text layer) are universally quantified records; the hypotheses Codec_OK, Text_OK, Csv_OK (Spec.v)
-   are everything that is assumed about them. *)
+   text layer, repr(float) / float()) are universally quantified records; the hypotheses Codec_OK,
+   Text_OK, Csv_OK, Float_OK (Spec.v) are everything that is assumed about them. *)
 From Coq Require Import ZArith List Bool String Ascii Lia.
-From PV Require Import Base.NpSearch Base.NpSort C18.Model C18.Spec C18.Ref C18.Proofs C18.ProofsJson C18.ProofsNum
-                       C18.ProofsTsv C18.ProofsPy C18.ProofsRef C18.ProofsSpec.
+From PV Require Import Base.NpSearch Base.NpSort C18.Model C18.Spec C18.Ref C18.Lim C18.Proofs C18.ProofsJson C18.ProofsNum
+                       C18.ProofsTsv C18.ProofsPy C18.ProofsPy2 C18.ProofsRef C18.ProofsSpec C18.ProofsLim.
 Import ListNotations.
 Open Scope Z_scope.
 
@@ -79,6 +79,12 @@ Theorem C18_json_checker_sound : forall d out,
 Proof. exact json_checker_sound. Qed.
 Print Assumptions C18_json_checker_sound.
 
+(* and conversely (completeness of the checker): the dictionary the specification demands passes both clauses *)
+Theorem C18_json_checker_complete : forall d,
+  json_keys_b d (normalise_top d) = true /\ json_vals_b d (normalise_top d) = true.
+Proof. exact json_checker_complete. Qed.
+Print Assumptions C18_json_checker_complete.
+
 (* ------------------------------------------------------------------------------------------------ *)
 (* tables                                                                                           *)
 (* ------------------------------------------------------------------------------------------------ *)
@@ -146,15 +152,74 @@ Theorem C18_tsv_checker_sound : forall first excl n rows out,
 Proof. exact rows_checker_sound. Qed.
 Print Assumptions C18_tsv_checker_sound.
 
+(* conversely: rows that satisfy the statement pass clauses 24 and 25 *)
+Theorem C18_tsv_checker_complete : forall first excl n rows out,
+  Forall2 (Row_Obs first excl n) rows out -> rows_spec_b excl n rows out = true /\ first_b first out = true.
+Proof. exact rows_checker_complete. Qed.
+Print Assumptions C18_tsv_checker_complete.
+
 (* two-column cluster tables with arbitrary (also negative) distinct ids and int / float /
-   non-numeric string values: field name, ids and values read back (floats exactly: repr) *)
-Theorem C18_tsv_simple : forall (T : Type) (V : csvlayer T), Csv_OK V ->
+   non-numeric string values: field name, ids and values read back -- a float x as a float()-typed
+   cell whose double is x (Cell_Is), for every repr / float() pair that round-trips (Float_OK: the text
+   of repr(x) is a float literal that converts to x again, int() rejects it, float characters only) *)
+Theorem C18_tsv_simple : forall (T : Type) (V : csvlayer T), Csv_OK V -> forall F : floatlayer, Float_OK F ->
   forall dl field data,
   znodup_b (map fst data) = true -> forallb (fun kv => simple_value_ok (snd kv)) data = true ->
   no_tab field = true -> str_csv_ok field = true ->
-  exists out, read_simple V (write_simple V dl field data) = Some out /\ Simple_Spec field data out.
-Proof. intros T V HV. exact (read_write_simple V HV). Qed.
+  exists out, read_simple V (write_simple V F dl field data) = Some out /\ Simple_Spec F field data out.
+Proof. intros T V HV F HF. exact (read_write_simple V HV F HF). Qed.
 Print Assumptions C18_tsv_simple.
+
+(* clause 26 on an observed table is exactly: same field name, distinct ids, every id of either side
+   agrees (integers / strings equal, floats the same double) -- soundness and completeness *)
+Theorem C18_simple_checker_iff : forall field data of out,
+  simple_spec_b field data of out = true <-> Simple_Obs field data of out.
+Proof. exact simple_checker_iff. Qed.
+Print Assumptions C18_simple_checker_iff.
+
+(* ------------------------------------------------------------------------------------------------ *)
+(* CPython's int_max_str_digits (4300): the bound as a guard                                         *)
+(* ------------------------------------------------------------------------------------------------ *)
+(* for |z| < 10^4300 the limited str() / int() are the unlimited ones of the theorems above and
+   round-trip; the guard is exactly "str(|z|) has at most 4300 digits" *)
+Theorem C18_int_limit : forall z, Z.abs z < 10 ^ 4300 ->
+  str_int_lim 4300 z = Some (show_int z) /\
+  py_int_lim 4300 (show_int z) = Some z /\
+  try_make_number_lim 4300 (CT (l2s (show_int z))) = OInt z.
+Proof. intros z H. apply int_limit_ok. unfold int_in_limit. rewrite lim_bound_eq. apply Z.ltb_lt, H. Qed.
+Print Assumptions C18_int_limit.
+
+(* beyond it str() raises ValueError (save_json, write_tsv, _write_tsv_simple, write_python all fail
+   before anything can be read back) and int() rejects the literal *)
+Theorem C18_int_limit_exceeded : forall z, 10 ^ 4300 <= Z.abs z ->
+  str_int_lim 4300 z = None /\ py_int_lim 4300 (show_int z) = None.
+Proof. intros z H. apply int_limit_exceeded. unfold int_in_limit. rewrite lim_bound_eq. apply Z.ltb_ge, H. Qed.
+Print Assumptions C18_int_limit_exceeded.
+
+Theorem C18_int_digits : forall n k, 0 <= n -> 1 <= k -> (zlen (show_nat n) <=? k) = (n <? 10 ^ k).
+Proof. exact show_nat_len. Qed.
+Print Assumptions C18_int_digits.
+
+(* _try_make_number with the limit types a text like the unlimited one whenever the integer literal
+   (if the text is one) has at most lim digits; lim = 0 (limit off) always *)
+Theorem C18_number_limit_agree : forall lim s, over_limit lim (int_digits (s2l s)) = false ->
+  try_make_number_lim lim (CT s) = try_make_number (CT s).
+Proof. exact try_number_lim_agree. Qed.
+Print Assumptions C18_number_limit_agree.
+
+(* every cell write_tsv / _write_tsv_simple produce from a value within the guard is written and typed
+   under the limit exactly as in C18_tsv / C18_tsv_simple *)
+Theorem C18_cell_limit : forall n v, 1 <= n -> value_ok v = true -> value_in_limit v = true ->
+  render_lim 4300 n v = Some (render n v) /\
+  try_make_number_lim 4300 (render n v) = try_make_number (render n v).
+Proof. exact render_lim_ok. Qed.
+Print Assumptions C18_cell_limit.
+
+Theorem C18_cell_raw_limit : forall F v, Float_OK F -> simple_value_ok v = true -> value_in_limit v = true ->
+  render_raw_lim F 4300 v = Some (render_raw F v) /\
+  try_make_number_lim 4300 (render_raw F v) = try_make_number (render_raw F v).
+Proof. exact render_raw_lim_ok. Qed.
+Print Assumptions C18_cell_raw_limit.
 
 (* ------------------------------------------------------------------------------------------------ *)
 (* parameter files                                                                                  *)
@@ -171,10 +236,41 @@ Theorem C18_python_one_line : forall s : list ascii,
 Proof. exact repr_str_one_line. Qed.
 Print Assumptions C18_python_one_line.
 
+(* str() / repr() of a parameter value, modelled on characters, evaluates (exec, modelled on characters)
+   to the value: None, bool, int, finite float (through the float oracle), str, nested lists and
+   string-keyed dictionaries *)
+Theorem C18_python_text : forall F : floatlayer, Float_OK F -> forall v,
+  plain v = true -> pfloat_ok v = true -> wfb v = true -> eval_expr F (py_repr F v) = Some v.
+Proof. intros F HF v H1 H2 H3. apply (eval_expr_repr F HF). repeat split; assumption. Qed.
+Print Assumptions C18_python_text.
+
+(* inside a larger text: the evaluator consumes exactly the text of the value, whatever follows it
+   (a token end), with fuel = the length of the text *)
+Theorem C18_python_text_prefix : forall F : floatlayer, Float_OK F -> forall v rest fuel,
+  plain v = true -> pfloat_ok v = true -> wfb v = true ->
+  (List.length (py_repr F v) <= fuel)%nat -> rest_ok rest ->
+  ev F fuel (py_repr F v ++ rest) = Some (v, rest).
+Proof. intros F HF v rest fuel H1 H2 H3. apply (ev_repr F HF). repeat split; assumption. Qed.
+Print Assumptions C18_python_text_prefix.
+
+(* no right-hand side has a raw line break: every assignment is one line of the file *)
+Theorem C18_python_rhs_one_line : forall F : floatlayer, Float_OK F -> forall v, pfloat_ok v = true ->
+  forallb (fun c => negb ((code c =? 10) || (code c =? 13))) (py_repr F v) = true.
+Proof. intros F HF. exact (py_repr_one_line F HF). Qed.
+Print Assumptions C18_python_rhs_one_line.
+
+(* the literal evaluator used inside lists / dictionaries (lit_rest) is the one of C18_python_repr
+   (lit_body) without the requirement that the text ends after the closing quote *)
+Theorem C18_python_literal_agree : forall q l,
+  lit_body q l = match lit_rest q l with Some (s, []) => Some s | _ => None end.
+Proof. exact lit_body_is_lit_rest. Qed.
+Print Assumptions C18_python_literal_agree.
+
 (* read_python (write_python d) = d for dictionaries over lower-case identifier keys and None, bool,
    int, finite float, str (any characters), lists and string-keyed dictionaries of these *)
-Theorem C18_python : forall d, py_ok d = true -> read_python (write_python d) = Some d.
-Proof. exact read_write_python. Qed.
+Theorem C18_python : forall F : floatlayer, Float_OK F ->
+  forall d, py_ok d = true -> read_python F (write_python F d) = Some d.
+Proof. intros F HF. exact (read_write_python F HF). Qed.
 Print Assumptions C18_python.
 
 (* clause 27 on an observed output says the dictionary read back is the written one *)
@@ -182,12 +278,16 @@ Theorem C18_python_checker_sound : forall d out, py_spec_b d out = true -> out =
 Proof. exact py_checker_sound. Qed.
 Print Assumptions C18_python_checker_sound.
 
+Theorem C18_python_checker_complete : forall d, py_spec_b d d = true.
+Proof. exact py_checker_complete. Qed.
+Print Assumptions C18_python_checker_complete.
+
 (* ------------------------------------------------------------------------------------------------ *)
 (* non-vacuity: the oracle hypotheses are satisfiable; concrete non-trivial instances               *)
 (* ------------------------------------------------------------------------------------------------ *)
-(* the reference oracles of the correspondence (Ref.v, Model.v) satisfy all three hypotheses *)
-Theorem C18_oracles_satisfiable : Codec_OK ref_codec /\ Text_OK ref_text /\ Csv_OK ref_csv.
-Proof. split; [exact ref_codec_ok|]. split; [exact ref_text_ok|exact ref_csv_ok]. Qed.
+(* the reference oracles of the correspondence (Ref.v, Model.v) satisfy all four hypotheses *)
+Theorem C18_oracles_satisfiable : Codec_OK ref_codec /\ Text_OK ref_text /\ Csv_OK ref_csv /\ Float_OK ref_float.
+Proof. split; [exact ref_codec_ok|]. split; [exact ref_text_ok|]. split; [exact ref_csv_ok|exact ref_float_ok]. Qed.
 Print Assumptions C18_oracles_satisfiable.
 
 (* so the very terms the comparator evaluates (Corr.v, code 1) meet the specification *)
@@ -202,6 +302,18 @@ Theorem C18_tsv_ref : forall dl first excl n rows,
               Rows_Spec first excl n rows out.
 Proof. exact (read_write_tsv ref_csv ref_csv_ok). Qed.
 Print Assumptions C18_tsv_ref.
+
+Theorem C18_tsv_simple_ref : forall dl field data,
+  znodup_b (map fst data) = true -> forallb (fun kv => simple_value_ok (snd kv)) data = true ->
+  no_tab field = true -> str_csv_ok field = true ->
+  exists out, read_simple ref_csv (write_simple ref_csv ref_float dl field data) = Some out /\
+              Simple_Spec ref_float field data out.
+Proof. exact (read_write_simple ref_csv ref_csv_ok ref_float ref_float_ok). Qed.
+Print Assumptions C18_tsv_simple_ref.
+
+Theorem C18_python_ref : forall d, py_ok d = true -> read_python ref_float (write_python ref_float d) = Some d.
+Proof. exact (read_write_python ref_float ref_float_ok). Qed.
+Print Assumptions C18_python_ref.
 
 Open Scope string_scope.
 Example C18_ex_keys :
@@ -227,12 +339,44 @@ Example C18_ex_rows :
 Proof. vm_compute. repeat split; reflexivity. Qed.
 
 Example C18_ex_simple :
-  read_simple ref_csv (write_simple ref_csv Tab "group" [(3, VStr "good"); (-2, VFloat (FFin false 1 (-3))); (10, VInt 7)])
-  = Some ("group", [(-2, OFlt (FFin false 1 (-3))); (3, OStr "good"); (10, OInt 7)]).
-Proof. vm_compute. reflexivity. Qed.
+  let data := [(3, VStr "good"); (-2, VFloat (FFin false 1 (-3))); (10, VInt 7); (4, VFloat (FFin true 5 2))] in
+  forallb (fun kv => simple_value_ok (snd kv)) data = true /\
+  l2s (ref_frepr (FFin false 1 (-3))) = "0.125" /\
+  read_simple ref_csv (write_simple ref_csv ref_float Tab "group" data)
+  = Some ("group", [(-2, ODec false 125 (-3)); (3, OStr "good"); (4, ODec true 200 (-1)); (10, OInt 7)]) /\
+  cell_double ref_float (ODec false 125 (-3)) = Some (FFin false 1 (-3)) /\
+  cell_double ref_float (ODec true 200 (-1)) = Some (FFin true 5 2).
+Proof. vm_compute. repeat split; reflexivity. Qed.
 
 Example C18_ex_python :
   let d := [("dat_path", PList [PStr "a.dat"; PStr "b ""c"".dat"]); ("n_channels_dat", PInt 384);
-            ("note", PStr (l2s (map chr [104; 105; 34; 39; 92; 10; 9; 1; 200])))] in
-  py_ok d = true /\ read_python (write_python d) = Some d.
-Proof. vm_compute. split; reflexivity. Qed.
+            ("note", PStr (l2s (map chr [104; 105; 34; 39; 92; 10; 9; 1; 200])));
+            ("offset", PNone); ("probe", PDict [("ids", PList [PInt (-1); PBool true; PList []]); ("x'y", PFloat (FFin true 3 (-1)))]);
+            ("sample_rate", PFloat (FFin false 1875 4))] in
+  py_ok d = true /\ read_python ref_float (write_python ref_float d) = Some d /\
+  l2s (py_repr ref_float (PDict [("ids", PList [PInt (-1); PBool true; PList []]); ("x'y", PFloat (FFin true 3 (-1)))]))
+  = "{'ids': [-1, True, []], ""x'y"": -1.5}" /\
+  eval_expr ref_float (s2l "[007]") = None /\ eval_expr ref_float (s2l "-inf") = None.
+Proof. vm_compute. repeat split; reflexivity. Qed.
+
+(* what the code does outside the statement *)
+(* a table without rows has no columns: write_tsv leaves an empty file and read_tsv raises StopIteration *)
+Example C18_ex_no_rows : forall dl first excl n, read_tsv ref_csv (write_tsv ref_csv dl first excl n []) = None.
+Proof. exact read_write_no_rows_ref. Qed.
+(* paths that do not exist: load_json / read_python raise, read_tsv gives [], _read_tsv_simple gives {};
+   an empty JSON file loads as {} *)
+Example C18_ex_paths :
+  load_json_path ref_codec ref_text_e FMissing = None /\
+  load_json_path ref_codec ref_text_e (FFile None) = Some [] /\
+  read_tsv_path ref_csv FMissing = Some [] /\
+  read_simple_path ref_csv FMissing = Some SNoFile /\
+  read_python_path ref_float FMissing = None.
+Proof. repeat split; reflexivity. Qed.
+(* the int_max_str_digits guard at its boundary (the limit as a parameter on a small scale) *)
+Example C18_ex_limit :
+  over_limit 4300 4300 = false /\ over_limit 4300 4301 = true /\ over_limit 0 99999 = false /\
+  str_int_lim 3 (-999) = Some (s2l "-999") /\ str_int_lim 3 1000 = None /\
+  py_int_lim 4 (s2l " -1_234 ") = Some (-1234) /\ py_int_lim 3 (s2l " -1_234 ") = None /\
+  py_int_lim 3 (s2l "0000") = None /\
+  try_make_number_lim 3 (CT "1234") = ODec false 1234 0 /\ try_make_number (CT "1234") = OInt 1234.
+Proof. vm_compute. repeat split; reflexivity. Qed.
